@@ -149,6 +149,7 @@ PROPS = {
              "non-trivial = every case (each word / segment is checked)",
         technique="Coq proof (word round-trip and exact limit guard; persisted segment round-trip; page alignment) + function-, byte- and API-level correspondence",
     ),
+    "C17": dict(runs=[], corr=set(), corr_held=False, spec=set(), spec_held=False, rule="", technique=""),
     "C11": dict(
         runs=[TREE + (360, 6000, 28)],
         corr=STRUCT | READS | {"tmodel:cget"}, corr_held=True,
@@ -202,7 +203,102 @@ def classify(pid, spec, cases, known):
     return viol, corr_breaks, known_hits
 
 
+def run_c17(pid, tier, seed, replay):
+    """C17: the access table is regenerated from /repo by lockscan and checked inside Coq."""
+    import subprocess, json
+    from checklib import (sh, VERIF, COQ, GOENV, Lock)
+    t0 = time.time()
+    res = build_all(need_go=False)
+    problems = []
+    if not res["coq"][0]:
+        problems.append("Coq development does not build:\n" + res["coq"][1][-1500:])
+    forb = scan_forbidden()
+    if forb:
+        problems.append("forbidden declarations: " + "; ".join(forb[:5]))
+    po = proof_obligations(pid) if res["coq"][0] else dict(obligations=3, discharged=0, theorems=[], axioms=[], ok=False, output="")
+    if res["coq"][0] and not po["ok"]:
+        problems.append("theorems of C17 not all accepted:\n" + po["output"][-1500:])
+    work = os.path.join(WORK, "C17.%d" % os.getpid())
+    os.makedirs(work, exist_ok=True)
+    unjust, counts, report, table_ok = -1, {}, "", False
+    try:
+        with Lock(os.path.join(BUILD, "lock")):
+            rc, out = sh(["go", "build", "-o", os.path.join(BUILD, "lockscan"), "."],
+                         cwd=os.path.join(VERIF, "harness", "lockscan"), env=GOENV, timeout=900)
+        if rc != 0:
+            problems.append("lockscan does not build:\n" + out[-1500:])
+        else:
+            rc, report = sh([os.path.join(BUILD, "lockscan"), "-dir", "/repo", "-coq", os.path.join(work, "Table.v")], timeout=600)
+            m = re.search(r"UNJUSTIFIED (\d+)", report)
+            unjust = int(m.group(1)) if m else -1
+            for mm in re.finditer(r"COUNT (\w+)\s+(\d+)", report):
+                counts[mm.group(1)] = int(mm.group(2))
+            if rc != 0 or unjust < 0:
+                problems.append("lockscan failed on /repo:\n" + report[-1500:])
+            else:
+                rc2, out2 = sh(["coqc", "-Q", COQ, "Moss", "-o", os.path.join(work, "Table.vo"), os.path.join(work, "Table.v")], timeout=900)
+                table_ok = rc2 == 0
+                if not table_ok:
+                    problems.append("the regenerated access table does not satisfy check_table (table_ok fails):\n" + out2[-800:])
+        unjustified = [ln for ln in report.splitlines() if " JNone" in ln]
+        out_lines, rc_final, nviol = [], 0, 0
+        race_out = ""
+        if problems or tier == "thorough":
+            # failing-input search (never the decision): the concurrent workloads under the race detector
+            env = dict(GOENV, CGO_ENABLED="1")
+            import shutil as _sh
+            _sh.copyfile("/repo/go.sum", os.path.join(VERIF, "harness", "racework", "go.sum"))
+            rcr, race_out = sh(["go", "test", "-race", "-count=1", "-timeout", "10m", "."],
+                               cwd=os.path.join(VERIF, "harness", "racework"), env=env, timeout=1200)
+        if problems:
+            nviol = len(problems)
+            rc_final = 1
+            text = "; property C17\n; " + "\n; ".join(p.replace("\n", "\n; ") for p in problems) + "\n"
+            text += "; unjustified accesses:\n" + "\n".join("; " + u for u in unjustified[:40]) + "\n"
+            if "DATA RACE" in race_out:
+                text += "; race detector output of harness/racework (go test -race):\n" + race_out[:6000]
+                path = write_replay_text(pid, "race", text)
+                out_lines.append("VIOLATION property=%s replay=%s" % (pid, path))
+            else:
+                text += "; go test -race on harness/racework found no race\n"
+                path = write_replay_text(pid, "table", text)
+                out_lines.append("VIOLATION property=%s replay=%s no-failing-input-found" % (pid, path))
+        samples = [ln for ln in report.splitlines() if re.match(r"\S+\.go:\d+", ln)][:6]
+        coverage = dict(
+            obligations=po["obligations"] + 1, discharged=po["discharged"] + (1 if table_ok else 0),
+            checker_cmd="make -C /verif/coq && coqc props/C17.v && lockscan -dir /repo -coq Table.v && coqc Table.v (Example table_ok by vm_compute)",
+            trusted_base=TRUSTED_BASE + ["lockscan (Go, go/packages + go/types): the translator that extracts every access to the "
+                                         "lock-protected fields of collection and Store and its justification; its classification rules "
+                                         "are trusted; the link between a justification label and `disciplined` is by inspection, not proved"],
+            theorems=po["theorems"] + ["table_ok (regenerated)"], axioms=po["axioms"],
+            programs=1, disagreements_checked=unjust if unjust >= 0 else 0,
+            evaluations=sum(counts.values()), distinct_nontrivial=sum(v for k, v in counts.items() if k != "JConstructor"),
+            rule="every read/write of a lock-protected field of `collection` and `Store` in non-test files, found through "
+                 "go/types selections; non-trivial = justified by a held lock, a LOCKED function whose call sites hold it, the "
+                 "gotLock parameter, or the snapshot callback (not a constructor access)",
+            samples=samples or ["(no report)"], justification_counts=counts, unjustified=unjust,
+            race_detector_run=bool(race_out), race_detector_found_race=("DATA RACE" in race_out),
+            explanation="lock-set discipline => race freedom proved in Coq for arbitrary traces; the access table is regenerated "
+                        "from /repo's working tree on every run and checked by vm_compute inside Coq; narrow: covers the "
+                        "lock-protected fields of two structs, not copy-on-write publication, the deferred-sort ticket protocol, "
+                        "atomics on stats, histograms or the mmap layer",
+        )
+        write_evidence(pid, tier, seed, "proof", coverage,
+                       ["lockscan's classification rules are sound for the code shapes that occur in moss (44 mutants/controls tested)",
+                        "Go memory model: mutex release happens-before later acquire"], time.time() - t0, nviol)
+        for ln in out_lines:
+            print(ln)
+        sys_stdout_flush()
+        if rc_final == 0:
+            log("C17: ok (%d accesses, %d unjustified, table_ok=%s, %.1fs)" % (sum(counts.values()), unjust, table_ok, time.time() - t0))
+        return rc_final
+    finally:
+        shutil.rmtree(work, ignore_errors=True)
+
+
 def run_property(pid, tier, seed, replay):
+    if pid == "C17":
+        return run_c17(pid, tier, seed, replay)
     t0 = time.time()
     spec = PROPS[pid]
     workdir = os.path.join(WORK, "%s.%d" % (pid, os.getpid()))
